@@ -58,6 +58,12 @@ func (e *eng) Exec(op []string) string {
 		return sb.String()
 	case "getpacket":
 		return fmt.Sprint(e.v.GetPacket(uint16(a(1))))
+	case "getpackets": // several subscriber NACKs at once: all of them are buffered before nackWriter runs (50 ms later)
+		var out []string
+		for i := 1; i < len(op); i++ {
+			out = append(out, fmt.Sprint(e.v.GetPacket(uint16(a(i)))))
+		}
+		return strings.Join(out, " ")
 	case "stats":
 		s := e.v.Stats()
 		return fmt.Sprintf("%d %d %d %d %d", s.Received, s.TotalReceived, s.Expected, s.TotalExpected, s.ESeqno)
@@ -139,6 +145,30 @@ func gen(t *common.Trace, e common.Engine, r *common.Rng, thorough bool) {
 			}
 			t.Count(fmt.Sprintf("getpacket:%d", which))
 			do("getpacket %d", s)
+			do("nacksfinal 120")
+		}
+		if r.Intn(2) == 0 {
+			// several subscriber NACKs buffered together; neighbours in the buffer that must both be filtered
+			// (before the cutoff, beyond the newest, already back in the cache) and ones that must be forwarded
+			k := r.Range(2, 6)
+			var ss []string
+			for j := 0; j < k; j++ {
+				which := r.Weighted(3, 3, 1, 2)
+				var s int
+				switch which {
+				case 0:
+					s = (seq - cache - r.Range(1, 60)) & 0xFFFF
+				case 1:
+					s = (seq + r.Range(1, 100)) & 0xFFFF
+				case 2:
+					s = (seq - r.Range(0, 3)) & 0xFFFF
+				default:
+					s = (seq - 300 - r.Range(1, 2000)) & 0xFFFF // before the cutoff
+				}
+				t.Count(fmt.Sprintf("getpackets:%d", which))
+				ss = append(ss, fmt.Sprint(s))
+			}
+			do("getpackets %s", strings.Join(ss, " "))
 			do("nacksfinal 120")
 		}
 	}
